@@ -164,11 +164,19 @@ void worker_main(int fd) {
     }
     else if (cmd == "buf_cons") { // reads byte stream, reassembles frames, checks integrity and per-producer order
       PShmBuffer *b = S.bufs[(int)I(1)]; long total_frames = I(2);
-      string stream; long got = 0; std::map<int, int> next_seq; int spins = 0;
+      string stream; long got = 0; std::map<int, int> next_seq; long spins = 0; int empty_after_done = 0;
       while (got < total_frames && r == "ok") {
         char tmp[64]; pint n = p_shm_buffer_read(b, tmp, 1 + (size_t)(spins % 37), NULL);
         if (n < 0) { r = "read-failed"; break; }
-        if (n == 0) { if (++spins > 40000) { r = "stuck"; break; } if (spins % 50 == 0) usleep(200); else sched_yield(); continue; }
+        if (n == 0) {
+          // give up only when the coordinator says every producer has finished successfully and the queue stays empty: then frames are LOST
+          ++spins;
+          if (g_page->rounds_done.load() == 1) { if (++empty_after_done > 3000) { r = "frames-missing " + std::to_string(got) + "/" + std::to_string(total_frames); break; } usleep(200); continue; }
+          if (spins > 3000000) { r = "stuck"; break; }
+          if (spins % 50 == 0) usleep(200); else sched_yield();
+          continue;
+        }
+        empty_after_done = 0;
         stream.append(tmp, (size_t)n);
         while (stream.size() >= 3 && stream.size() >= 3 + (size_t)(unsigned char)stream[0]) {
           size_t plen = (unsigned char)stream[0]; int id = (unsigned char)stream[1]; int seq = (unsigned char)stream[2];
@@ -737,7 +745,23 @@ Outcome run_c08(const Case &c, bool thorough) {
       int nprod = (int)hs.size() - 1;
       co.send(hs[0].first, "buf_cons " + std::to_string(hs[0].second) + " " + std::to_string(frames * nprod));
       for (int i = 0; i < nprod; i++) co.send(hs[(size_t)i + 1].first, "buf_prod " + std::to_string(hs[(size_t)i + 1].second) + " " + std::to_string(frames) + " " + std::to_string(i + 1) + " " + std::to_string(maxlen));
-      for (auto &h : hs) { string rr; if (!co.recv(h.first, rr, 120000)) { co.out.inconclusive = true; break; } if (rr.rfind("ok", 0) != 0) { if (rr.rfind("stuck", 0) == 0) co.out.inconclusive = true; else co.fail("concurrent", "concurrent producers/consumer: " + rr.substr(0, rr.find(' ')) + " (frames must arrive whole, in order per producer)"); } }
+      g_page->rounds_done = 0;
+      // collect every reply first: a consumer that saw a damaged frame stops reading, which in turn blocks the producers
+      bool producers_ok = true, producers_stuck = false; string prod_err;
+      for (size_t hi = 1; hi < hs.size(); hi++) { string rr; if (!co.recv(hs[hi].first, rr, 120000)) { co.out.inconclusive = true; break; } if (getenv("IPCX_DEBUG")) fprintf(stderr, "producer %zu: %s\n", hi, rr.c_str()); if (rr.rfind("ok", 0) != 0) { producers_ok = false; if (rr.rfind("stuck", 0) == 0) producers_stuck = true; else prod_err = rr.substr(0, rr.find(' ')); } }
+      g_page->rounds_done = producers_ok ? 1 : 2;   // tells the consumer that nothing more will be written
+      if (!co.out.inconclusive) {
+        string rr;
+        if (!co.recv(hs[0].first, rr, 120000)) co.out.inconclusive = true;
+        else {
+          if (getenv("IPCX_DEBUG")) fprintf(stderr, "consumer: %s\n", rr.c_str());
+          if (rr.rfind("frames-missing", 0) == 0 && producers_ok) co.fail("concurrent-lost-write", "concurrent producers/consumer: every producer write returned its full length, yet only " + rr.substr(15, rr.find(" points") - 15) + " frames ever arrived (a successful write was overwritten or lost: writes are not atomic with respect to each other)");
+          else if (rr.rfind("frame-", 0) == 0 || rr.rfind("trailing", 0) == 0 || rr.rfind("read-failed", 0) == 0) co.fail("concurrent", "concurrent producers/consumer: the consumer saw " + rr.substr(0, rr.find(' ')) + " (frames written atomically by concurrent producers must arrive whole and in order per producer)");
+          else if (!prod_err.empty()) co.fail("concurrent", "concurrent producers: " + prod_err);
+          else if (rr.rfind("ok", 0) != 0 || producers_stuck) co.out.inconclusive = true;
+        }
+      }
+      g_page->rounds_done = 0;
       if (co.bad()) break;
       co.classes.insert("producer_consumer_phase"); multi = true; wrapped = true; wpos = 0;
       // ring positions moved; resynchronise the classification model only (queue is empty again)
@@ -846,6 +870,19 @@ void enumerate(const string &prop, long shard, long nshards) {
         exec("raceenum", c, false);
       }
     vl::stats().exhaustive["C07_every_kill_point_of_p_shm_new_and_every_pause_point_of_the_first_use_race"] = true;
+  } else if (prop == "C08") {
+    // concurrent producers (2 processes) and one consumer on every capacity class that can hold a frame; repeated
+    for (int rep = 0; rep < 6; rep++)
+      for (int capi : {5, 6, 7}) {
+        if ((idx++ % nshards) != shard) continue;
+        Case c; c.prop = "C08";
+        Step cap; cap.cmd = "cap"; cap.args = {capi}; c.steps.push_back(cap);
+        for (int w = 1; w <= 2; w++) { Step o; o.worker = w; o.cmd = "open"; o.args = {0, 0, 0}; c.steps.push_back(o); }
+        Step pc; pc.worker = 0; pc.cmd = "pc"; pc.args = {0, 0, 0}; c.steps.push_back(pc);
+        Step q; q.worker = 1; q.cmd = "query"; q.args = {0, 0, 0}; c.steps.push_back(q);
+        Step pc2 = pc; c.steps.push_back(pc2);
+        exec("pcenum", c, false);
+      }
   }
 }
 
